@@ -1,0 +1,197 @@
+//go:build verif
+
+// Contracts of package exprtools for the gocv verifier (property C11 and, as
+// callee contracts, C01). Comment-only: no Go code is compiled from this file.
+//
+// Vocabulary: val(e) is the value of expression e as a bit-vector of
+// 8*width(e) bits; ext(t, w) zero-extends or truncates t to w bytes; all
+// operators are the bit-vector operators of that width. leaf(n) is an
+// arbitrary expression leaf of n bytes (every value).
+
+package exprtools
+
+//@ func Negate
+//@   enum w in WIDTHS, ew in OPWIDTHS
+//@   input:e leaf(ew)
+//@   ensures width(result) == w
+//@   ensures val(result) == -ext(val(e), w)
+
+//@ func Sub
+//@   enum w in WIDTHS, ew in OPWIDTHS
+//@   input:e1 leaf(ew)
+//@   input:e2 leaf(ew)
+//@   ensures width(result) == w
+//@   ensures val(result) == ext(val(e1), w) - ext(val(e2), w)
+
+//@ func Abs
+//@   enum w in WIDTHS, ew in OPWIDTHS
+//@   input:e leaf(ew)
+//@   ensures width(result) == w
+//@   ensures val(result) == ite(msb(ext(val(e), w)), -ext(val(e), w), ext(val(e), w))
+
+//@ func Ones
+//@   enum w in WIDTHS
+//@   ensures width(result) == w
+//@   ensures val(result) == ones(w)
+
+//@ func Mod
+//@   enum w in WIDTHS, ew in OPWIDTHS
+//@   input:e1 leaf(ew)
+//@   input:e2 leaf(ew)
+//@   ensures width(result) == w
+//@   ensures val(result) == urem(ext(val(e1), w), ext(val(e2), w))
+//@   ensures[zero-divisor] ext(val(e2), w) == 0 ==> val(result) == ext(val(e1), w)
+
+//@ func SignedMul
+//@   enum w in HALFWIDTHS, ew in OPWIDTHS
+//@   input:e1 leaf(ew)
+//@   input:e2 leaf(ew)
+//@   requires ew <= 2*w
+//@   ensures width(result) == 2*w
+//@   ensures val(result) == umul(sextw(val(e1), 2*w), sextw(val(e2), 2*w))
+
+//@ func SignedDiv
+//@   enum w in WIDTHS
+//@   input:e1 leaf(w)
+//@   input:e2 leaf(w)
+//@   ensures width(result) == w
+//@   ensures[by-zero] val(e2) == 0 ==> val(result) == ones(w)
+//@   ensures[overflow] val(e1) == shl(bv(1, 8*w), 8*w-1) && val(e2) == ones(w) ==> val(result) == val(e1)
+//@   ensures[quotient] val(e2) != 0 ==> val(result) == sdivspec(val(e1), val(e2))
+
+//@ func SignedMod
+//@   enum w in WIDTHS
+//@   input:e1 leaf(w)
+//@   input:e2 leaf(w)
+//@   ensures width(result) == w
+//@   ensures[by-zero] val(e2) == 0 ==> val(result) == val(e1)
+//@   ensures[overflow] val(e1) == shl(bv(1, 8*w), 8*w-1) && val(e2) == ones(w) ==> val(result) == 0
+//@   ensures[suite-convention] val(result) == ite(msb(val(e1)) != msb(val(e2)), -urem(absv(val(e1)), absv(val(e2))), urem(absv(val(e1)), absv(val(e2))))
+
+//@ func SignExtend
+//@   enum w in WIDTHS, ew in OPWIDTHS
+//@   input:e leaf(ew)
+//@   input:signBit leaf(2)
+//@   requires ult(ext(val(signBit), w), 8*w)
+//@   ensures width(result) == w
+//@   ensures val(result) == ashr(shl(ext(val(e), w), 8*w-1 - ext(val(signBit), w)), 8*w-1 - ext(val(signBit), w))
+
+//@ func RshA
+//@   enum w in WIDTHS, ew in OPWIDTHS
+//@   input:e leaf(ew)
+//@   input:shift leaf(ew)
+//@   ensures width(result) == w
+//@   ensures val(result) == ashr(ext(val(e), w), ext(val(shift), w))
+
+//@ func BitNot
+//@   enum w in WIDTHS, ew in OPWIDTHS
+//@   input:e leaf(ew)
+//@   ensures width(result) == w
+//@   ensures val(result) == ^ext(val(e), w)
+
+//@ func BitAnd
+//@   enum w in WIDTHS, ew in OPWIDTHS
+//@   input:e1 leaf(ew)
+//@   input:e2 leaf(ew)
+//@   ensures width(result) == w
+//@   ensures val(result) == ext(val(e1), w) & ext(val(e2), w)
+
+//@ func BitOr
+//@   enum w in WIDTHS, ew in OPWIDTHS
+//@   input:e1 leaf(ew)
+//@   input:e2 leaf(ew)
+//@   ensures width(result) == w
+//@   ensures val(result) == ext(val(e1), w) | ext(val(e2), w)
+
+//@ func BitXor
+//@   enum w in WIDTHS, ew in OPWIDTHS
+//@   input:e1 leaf(ew)
+//@   input:e2 leaf(ew)
+//@   ensures width(result) == w
+//@   ensures val(result) == ext(val(e1), w) ^ ext(val(e2), w)
+
+//@ func Bool
+//@   enum ew in WIDTHS
+//@   input:e leaf(ew)
+//@   ensures width(result) == 1
+//@   ensures val(result) == ite(val(e) != 0, bv(1, 8), bv(0, 8))
+
+//@ func Not
+//@   enum ew in WIDTHS
+//@   input:e leaf(ew)
+//@   ensures width(result) == 1
+//@   ensures val(result) == ite(val(e) != 0, bv(0, 8), bv(1, 8))
+
+//@ func BoolCond
+//@   enum w in WIDTHS, ew in OPWIDTHS
+//@   input:boolExpr leaf(1)
+//@   input:trueExpr leaf(ew)
+//@   input:falseExpr leaf(ew)
+//@   ensures width(result) == w
+//@   ensures val(result) == ite(val(boolExpr) != 0, ext(val(trueExpr), w), ext(val(falseExpr), w))
+
+//@ func Eq
+//@   enum w in WIDTHS, ew in OPWIDTHS
+//@   input:arg1 leaf(ew)
+//@   input:arg2 leaf(ew)
+//@   input:exprTrue leaf(w)
+//@   input:exprFalse leaf(w)
+//@   ensures width(result) == w
+//@   ensures val(result) == ite(ext(val(arg1), w) == ext(val(arg2), w), val(exprTrue), val(exprFalse))
+
+//@ func Lts
+//@   enum w in WIDTHS, ew in OPWIDTHS
+//@   input:arg1 leaf(ew)
+//@   input:arg2 leaf(ew)
+//@   input:exprTrue leaf(w)
+//@   input:exprFalse leaf(w)
+//@   ensures width(result) == w
+//@   ensures val(result) == ite(slt(ext(val(arg1), w), ext(val(arg2), w)), val(exprTrue), val(exprFalse))
+
+//@ func Leu
+//@   enum w in WIDTHS, ew in OPWIDTHS
+//@   input:arg1 leaf(ew)
+//@   input:arg2 leaf(ew)
+//@   input:exprTrue leaf(w)
+//@   input:exprFalse leaf(w)
+//@   ensures width(result) == w
+//@   ensures val(result) == ite(ule(ext(val(arg1), w), ext(val(arg2), w)), val(exprTrue), val(exprFalse))
+
+//@ func Les
+//@   enum w in WIDTHS, ew in OPWIDTHS
+//@   input:arg1 leaf(ew)
+//@   input:arg2 leaf(ew)
+//@   input:exprTrue leaf(w)
+//@   input:exprFalse leaf(w)
+//@   ensures width(result) == w
+//@   ensures val(result) == ite(sle(ext(val(arg1), w), ext(val(arg2), w)), val(exprTrue), val(exprFalse))
+
+//@ func MaskBits
+//@   enum w in WIDTHS, ew in OPWIDTHS, cnt in BITCNTS
+//@   input:e leaf(ew)
+//@   requires cnt <= 8*w
+//@   ensures width(result) == w
+//@   ensures val(result) == ext(val(e), w) & lowmask(cnt, w)
+
+//@ func bitMask
+//@   enum w in WIDTHS, bits in BITCNTS
+//@   requires bits <= 8*w
+//@   ensures width(result) == w
+//@   ensures val(result) == lowmask(bits, w)
+
+//@ func signBitMask
+//@   enum w in WIDTHS
+//@   ensures width(result) == w
+//@   ensures val(result) == shl(bv(1, 8*w), 8*w-1)
+
+//@ func IntNegative
+//@   enum w in WIDTHS, ew in OPWIDTHS
+//@   input:e leaf(ew)
+//@   ensures width(result) == w
+//@   ensures (val(result) != 0) == msb(ext(val(e), w))
+
+//@ func NewWidthGadget
+//@   enum w in WIDTHS, ew in OPWIDTHS
+//@   input:e leaf(ew)
+//@   ensures width(result) == w
+//@   ensures val(result) == ext(val(e), w)
